@@ -54,6 +54,7 @@ type TcAbs struct {
 	ZeroPath bool   `json:"zeropath"` // p1 carries the zero value of its kind (0, false, enum 0)
 	CompSub  bool   `json:"compsub"`  // a query key names a SUB-field of the path-bound field (wrapper .value, Timestamp/Duration .seconds)
 	Ws       bool   `json:"ws"`       // the request is a WebSocket session: rule kind WEBSOCKET, the body is the first text frame
+	Accept   string `json:"accept"`   // Accept header of the request: "" | */* | other (the codec the body is NOT in) | same
 	Framing  string `json:"framing"`  // how the request body is delimited: "" sized | unsized (HTTP/2, no content-length) | chunked (HTTP/1.1)
 }
 
@@ -115,7 +116,7 @@ type val struct {
 	isMsg bool
 }
 
-var strTable = []string{"", "a", "hello", "x-y_z.w~", "ünï書", "0", "true", "null", "a+b", "q=1&r=2", "%41", "sp ace", "\"quoted\"", strings.Repeat("long", 64)}
+var strTable = []string{"", "C:\\temp\\new", "a\\\\b", "\\d+", "x\\", "50\\u0025", "a", "hello", "x-y_z.w~", "ünï書", "0", "true", "null", "a+b", "q=1&r=2", "%41", "sp ace", "\"quoted\"", strings.Repeat("long", 64)}
 var strPathTable = []string{"a", "hello", "x-y_z.w~", "ünï書", "0", "true", "null", "a+b", "a,b;c=d@e", "(x)'!$&*", strings.Repeat("p", 200)}
 var i32Table = []int64{1, -1, 7, math.MaxInt32, math.MinInt32, 100, -40}
 var i64Table = []int64{1, -1, math.MaxInt64, math.MinInt64, 1 << 53, -(1 << 53) - 1, 1 << 32}
@@ -695,6 +696,23 @@ func runTcCase(c TcAbs, seed int64) TcEv {
 			req.Header.Set("Content-Encoding", "gzip")
 		}
 	}
+	// the reply may be asked for in another codec than the body is in: the body's codec is the Content-Type's
+	switch c.Accept {
+	case "*/*":
+		req.Header.Set("Accept", "*/*")
+	case "other":
+		if c.Codec == "json" {
+			req.Header.Set("Accept", "application/protobuf")
+		} else {
+			req.Header.Set("Accept", "application/json")
+		}
+	case "same":
+		if c.Codec == "json" {
+			req.Header.Set("Accept", "application/json")
+		} else {
+			req.Header.Set("Accept", "application/protobuf")
+		}
+	}
 	w := httptest.NewRecorder()
 	if c.Ws {
 		// one text frame with the JSON body over a real socket; the handler's first message is what counts
@@ -890,6 +908,13 @@ func runRespCase(c RespCase, seed int64) RespEv {
 	}
 	rule := httpRule("POST", "/resp/{s}")
 	rule.Body = "*"
+	foreign := c.ReqCT != "" && !strings.HasPrefix(c.ReqCT, "application/json") && c.ReqCT != "application/protobuf" &&
+		c.ReqCT != "application/octet-stream" && c.ReqCT != "application/x-verif"
+	if foreign || c.ReqCT == "application/json; charset=utf-8" {
+		// a content type no codec is registered for cannot carry a body: a body-less GET that nevertheless names one
+		rule = httpRule("GET", "/resp/{s}")
+		foreign = true
+	}
 	rule.ResponseBody = c.RespBody
 	out := ""
 	if c.Kind == "httpbody" {
@@ -965,6 +990,9 @@ func runRespCase(c RespCase, seed int64) RespEv {
 	}
 	req := httptest.NewRequest("POST", "http://verif.test/resp/x", bytes.NewReader(reqBody))
 	req.ContentLength = int64(len(reqBody))
+	if foreign {
+		req = httptest.NewRequest("GET", "http://verif.test/resp/x", nil)
+	}
 	if c.ReqCT != "" {
 		req.Header.Set("Content-Type", c.ReqCT)
 	}
